@@ -2,7 +2,7 @@
 # tools_seed.sh <Cxx> [checks...] : confirm a seeded change from /tmp/seed/<Cxx>, run checks against it, store it under seeded/
 set -u
 P=$1; shift
-CHECKS=${@:-$P}
+CHECKS=${@:-${P:0:3}}
 W=/tmp/seed/$P
 D=/verif/seeded/$P
 mkdir -p $D
